@@ -20,6 +20,7 @@ CONSTANTS
   HandlerIds = {}
   Kinds = {"task"}
   Keys = {1}
+  BadKeys = {}
   SrcOpts <- Opts_plain
   EvKinds = {"task"}
   MaxBatch = 2
